@@ -187,10 +187,11 @@ Proof. vm_compute. reflexivity. Qed.
 (* ------------------------------------------------------------------------------------------ *)
 From SC Require Import Excess.ChangesAfter Excess.ChangesAfterProofs Excess.Pipeline Excess.PipelineProofs.
 
-(* Arrival order.  Collection.Update publishes after releasing the lock, so publications of
-   different ids reach a listener in any order (ChangesAfter.v says which orders exactly); what the
-   store keeps is the order of the publications of each id (writes to one id that do not overlap).
-   Two streams with the same per-id subsequences are the same edit script: *)
+(* Arrival order.  Since /repo 3d54e87 publications leave in commit order (ChangesAfter.v says what a
+   listener can see exactly; C09_in_order_arrival_drops_a_prefix below).  The theorems need less:
+   only the order of the publications of each id.  Two streams with the same per-id subsequences
+   are the same edit script, so they also cover the store as it was before that commit (Update
+   published after releasing the lock, publications of different ids could cross): *)
 Theorem C09_arrival_order_irrelevant_across_ids : forall l1 l2 v,
   per_id_same l1 l2 -> valid_script l1 v = true ->
   valid_script l2 v = true /\ (forall i, fold_view l2 v i = fold_view l1 v i).
@@ -331,7 +332,18 @@ Theorem C09_judge_sound_lossy_front : forall seeded hist acts os,
 Proof. exact judge_sound_lossy. Qed.
 Print Assumptions C09_judge_sound_lossy_front.
 
-(* non-vacuity: two writers of different ids publish in the opposite order to their commits while
+(* since /repo 3d54e87 publications leave in commit order; then changesAfter only ever drops a prefix
+   (the arrivals the seed already shows), and what it passes on is the rest, unchanged *)
+Theorem C09_in_order_arrival_drops_a_prefix : forall thr arr, increasing arr = true ->
+  exists stale live, arr = stale ++ live /\
+    forallb (fun p => negb (ca_pass thr p)) stale = true /\
+    forallb (ca_pass thr) live = true /\
+    changes_after thr arr = map pchange live.
+Proof. exact in_order_drops_a_prefix. Qed.
+Print Assumptions C09_in_order_arrival_drops_a_prefix.
+
+(* non-vacuity (of the model's larger class of orders; the store itself no longer lets publications
+   cross): two writers of different ids publish in the opposite order to their commits while
    the subscriber is stalled; a stale publication (commit 1, already in the seed) arrives late *)
 Example C09_nonvacuous_pipeline :
   let a0 := mkChange 0 1 None (Some 1) 0 false false in
